@@ -13,14 +13,15 @@ def run(ctx):
     # ages): one run set in the sandbox's zone with a long retention, one each far west / far east of UTC with the shortest
     import concurrent.futures
     variants = [([], "12" if thorough else "6"), (["--zone", "west", "--maxage", "1"], "7" if thorough else "4"),
-                (["--zone", "east", "--maxage", "1"], "7" if thorough else "4")]
+                (["--zone", "east", "--maxage", "1"], "7" if thorough else "4"),
+                (["--maxage", "876000"], "4" if thorough else "2")]   # "keep for a hundred years"
     ctx.build()
 
     def one(iv):
         i, (extra, runs) = iv
         d = dump + ".%d" % i
         return d, ctx.vh(["rollreal", "--dump", d, "--runs", runs, "--seconds", "12" if thorough else "4"] + extra, timeout=600)
-    with concurrent.futures.ThreadPoolExecutor(max_workers=3) as ex:
+    with concurrent.futures.ThreadPoolExecutor(max_workers=4) as ex:
         results = list(ex.map(one, enumerate(variants)))
     with open(dump, "w") as out:
         for d, res in results:
